@@ -1,7 +1,7 @@
 (* C11: operation sequences over the bundle mutators of Model/Ops.v, the start states produced by the public
    builders (BundleBuilder::build, new_std_payload_bundle), the admissible arguments and the block-list
    invariant.  Definitions only; the proofs are in Proofs/InvariantProofs.v. *)
-From BP7 Require Import Base.Prelude Gen.Consts Model.Types Model.Encode Model.Wf Model.Validate Model.Ops Spec.Rules.
+From BP7 Require Import Base.Prelude Gen.Consts Model.Types Model.Encode Model.Wf Model.WfExt Model.Validate Model.Ops Spec.Rules.
 
 (* ---- operations ---- *)
 Inductive op :=
@@ -56,12 +56,13 @@ Definition new_std_payload_bundle (src dst : eid) (t seq : N) (data : list byte)
 Definition built_by_builders (b : bundle) : Prop :=
   (exists cs0, b_canonicals b = sort_desc cs0) /\
   (exists c, last_opt (b_canonicals b) = Some c /\ carries_data c = true).
-(* The start state of the property: a builder bundle that validates.  wf_bundle is the representation
-   side condition of C01: integer widths (true of every Rust value), EIDs in constructor normal form, no unknown CRC
-   type, and the data variant of every block determined by its block type.  The last part is NOT implied by
-   validate: a block of type 6/7/10 carrying CanonicalData::Unknown passes extension_validation, but it does not
-   round-trip (the decoder re-reads its bytes as the typed variant), so it has to be excluded here. *)
-Definition start_ok (b : bundle) : Prop := built_by_builders b /\ validate b = [] /\ wf_bundle b = true.
+(* The start state of the property: a builder bundle that validates.  wf_bundle_u (Model/WfExt.v) is the representation
+   side condition of C01 extended to unknown CRC types: integer widths (true of every Rust value), EIDs in constructor normal
+   form, CRC values of the right length or CrcUnknown k with 3 <= k <= 255, and the data variant of every block determined
+   by its block type.  The last part is NOT implied by validate: a block of type 6/7/10 carrying CanonicalData::Unknown
+   passes extension_validation, but it does not round-trip (the decoder re-reads its bytes as the typed variant), so it
+   has to be excluded here.  wf_bundle (Model/Wf.v, CRC types 0/1/2 only) implies wf_bundle_u. *)
+Definition start_ok (b : bundle) : Prop := built_by_builders b /\ validate b = [] /\ wf_bundle_u b = true.
 
 (* ---- admissible arguments ---- *)
 (* validate's switch for the status-report rule; it depends only on primary fields no operation changes *)
@@ -71,7 +72,7 @@ Definition strict_of (b : bundle) : bool := is_admin_record b || eid_eqb (p_src 
    hit; no status-report request when the bundle is an administrative record or has an anonymous source; a
    previous-node EID, if any, valid *)
 Definition arg_block_ok (strict : bool) (c : canonical) : bool :=
-  (c_type c <? two64) && (c_flags c <? 256) && wf_crc (c_crc c) && wf_data (c_type c) (c_data c)
+  (c_type c <? two64) && (c_flags c <? 256) && wf_crc_u (c_crc c) && wf_data (c_type c) (c_data c)
   && negb (block_flag (c_flags c) BLOCK_CFRESERVED_FIELDS)
   && negb (strict && block_flag (c_flags c) BLOCK_STATUS_REPORT)
   && match c_data c with PreviousNode e => eid_valid e | _ => true end.
@@ -80,7 +81,7 @@ Definition op_ok (strict : bool) (o : op) : bool :=
   | AddBlock c => arg_block_ok strict c
   | SetPayload d => Nlen d <? two64                                  (* true of every Vec<u8> *)
   | SetPayloadBlock c => arg_block_ok strict c && (c_type c =? PAYLOAD_BLOCK)
-  | SetCrc code => code <=? CRC_32
+  | SetCrc code => code <? 256                                       (* every CrcRawType (u8), known or not *)
   | UpdateExt node rt clock =>
       eid_valid node && wf_eid node && (Nlen (enc_eid node) <? two64) (* a valid EndpointID value *)
       && (MS1970_TO2K <=? clock)                                      (* clock not before 2000-01-01 (C17 assumption) *)
@@ -105,4 +106,4 @@ Definition Inv (b : bundle) : Prop :=
   let cs := b_canonicals b in
   NoDup (map c_num cs) /\ ~ In 0 (map c_num cs) /\ strictly_desc (map c_num cs)
   /\ payload_last cs /\ singletons_once cs
-  /\ validate b = [] /\ wf_bundle b = true.
+  /\ validate b = [] /\ wf_bundle_u b = true.
